@@ -173,17 +173,19 @@ def solved_case(draw, lo=2, hi=6, square=True, connected=None, min_len=1, allow_
     a = M.adj(g)
     r, c = g["r"], g["c"]
     s = tuple(draw(cell_in(r, c)))
-    comp = sorted(M.component(a, s))
     dist = M.bfs(a, s)
-    cands = [u for u in comp if dist[u] + 1 >= min_len]
-    if not cands:
-        # fall back to the farthest cell
-        far = max(comp, key=lambda u: dist[u])
-        cands = [far]
-    # bias towards far endpoints
-    if draw(st.booleans()):
-        mx = max(dist[u] for u in cands)
-        cands = [u for u in cands if dist[u] >= (mx + 1) // 2]
+    comp = sorted(dist, key=lambda u: (-dist[u], u))  # farthest first: Hypothesis prefers early elements
+    mx = dist[comp[0]]
+    mode = draw(st.sampled_from(["far", "far", "far", "any", "any", "len1", "len2"]))
+    if mode == "len1":
+        cands = [s]
+    elif mode == "len2":
+        cands = [u for u in comp if dist[u] == 1] or [s]
+    elif mode == "far":
+        cands = [u for u in comp if dist[u] >= (mx + 1) // 2]
+    else:
+        cands = comp
+    cands = [u for u in cands if dist[u] + 1 >= min_len] or [comp[0]]
     e = draw(st.sampled_from(cands))
     paths = M.all_shortest_paths(a, s, e, cap=4)
     p = draw(st.sampled_from(paths))
@@ -256,3 +258,75 @@ def generator_call(draw, lo=1, hi=12, square=False, names=None, defaults_only=Fa
 
 def product_cases(*iterables):
     return itertools.product(*iterables)
+
+
+# ----------------------------------------------------------------------------------------------
+# dataset configurations (JSON specs, see lib.make_cfg)
+# ----------------------------------------------------------------------------------------------
+
+FILTER_SPECS = [
+    lambda d: {"name": "path_length", "args": [], "kwargs": {"min_length": d(st.integers(0, 6))}},
+    lambda d: {"name": "path_length", "args": [d(st.integers(0, 6))], "kwargs": {}},
+    lambda d: {"name": "start_end_distance", "args": [], "kwargs": {"min_distance": d(st.integers(0, 5))}},
+    lambda d: {"name": "cut_percentile_shortest", "args": [], "kwargs": {"percentile": d(st.sampled_from([0.0, 10.0, 25.0, 50.0, 90.0]))}},
+    lambda d: {"name": "truncate_count", "args": [], "kwargs": {"max_count": d(st.integers(0, 12))}},
+    lambda d: {"name": "truncate_count", "args": [d(st.integers(0, 12))], "kwargs": {}},
+    lambda d: {"name": "remove_duplicates", "args": [], "kwargs": {}},
+    lambda d: {"name": "remove_duplicates_fast", "args": [], "kwargs": {}},
+    lambda d: {"name": "strip_generation_meta", "args": [], "kwargs": {}},
+    lambda d: {"name": "collect_generation_meta", "args": [], "kwargs": {}},
+]
+
+
+@st.composite
+def filter_list(draw, max_size=3, allow=None):
+    n = draw(st.integers(0, max_size))
+    out = []
+    for _ in range(n):
+        mk = draw(st.sampled_from(FILTER_SPECS))
+        f = mk(draw)
+        if allow is not None and f["name"] not in allow:
+            continue
+        out.append(f)
+    return out
+
+
+@st.composite
+def endpoint_kwargs(draw, n: int, satisfiable_bias: bool = True):
+    """endpoint options; coordinate lists are lists of [r,c] (turned into tuples by lib.make_cfg)"""
+    ep: dict = {}
+    cells = [[i, j] for i in range(n) for j in range(n)]
+    big = st.lists(st.sampled_from(cells), min_size=max(1, (n * n) // 2), max_size=n * n, unique_by=tuple)
+    small = st.lists(st.sampled_from(cells), min_size=1, max_size=3, unique_by=tuple)
+    pick = big if satisfiable_bias else st.one_of(big, small)
+    if draw(st.booleans()):
+        ep["allowed_start"] = draw(pick)
+    if draw(st.booleans()):
+        ep["allowed_end"] = draw(pick)
+    if draw(st.booleans()):
+        ep["deadend_start"] = draw(st.booleans())
+    if draw(st.booleans()):
+        ep["deadend_end"] = draw(st.booleans())
+    if draw(st.booleans()):
+        ep["endpoints_not_equal"] = draw(st.booleans())
+    return ep
+
+
+@st.composite
+def dataset_spec(draw, n_lo=2, n_hi=6, mazes_lo=0, mazes_hi=8, ctors=None, with_filters=True, with_endpoint=True,
+                 names=None, satisfiable_bias=True, filter_allow=None):
+    ctor = draw(st.sampled_from(ctors or GENERATORS))
+    n = draw(st.sampled_from(list(range(n_lo, n_hi + 1))))
+    spec = {
+        "name": draw(names or st.sampled_from(["cfg", "test", "a-b_c", "x1"])),
+        "grid_n": n,
+        "n_mazes": draw(st.integers(mazes_lo, mazes_hi)),
+        "ctor": ctor,
+        "kwargs": draw(gen_kwargs(ctor, n, n)) if draw(st.booleans()) else {},
+        "seed": draw(st.sampled_from([42, 0, 1, 7, 123456, 2**31 - 1]) | st.integers(0, 2**31 - 1)),
+    }
+    if with_endpoint and draw(st.booleans()):
+        spec["endpoint"] = draw(endpoint_kwargs(n, satisfiable_bias))
+    if with_filters and draw(st.booleans()):
+        spec["filters"] = draw(filter_list(allow=filter_allow))
+    return spec
